@@ -420,6 +420,72 @@ func (w *world) opDecode(tk int, x int, ref pdf.Reference, tp string, nest, excl
 	w.checkIdentity(key, serial)
 }
 
+// Result types that are interfaces: the in-flight table of DecodeExclusive
+// has to keep them apart just as the cache does.
+type IfaceP interface{ P() int }
+type IfaceQ interface{ Q() int }
+type ValP struct{ Serial int }
+type ValQ struct{ Serial int }
+
+func (v *ValP) P() int { return v.Serial }
+func (v *ValQ) Q() int { return v.Serial }
+
+// opExclIface decodes ref exclusively as one of two interface types.
+func (w *world) opExclIface(tk int, x int, ref pdf.Reference, which int) {
+	cur := pdf.CursorAt(w.xs[x], nil)
+	ran := false
+	var serial int
+	var err error
+	wrong := ""
+	if which == 0 {
+		var v IfaceP
+		v, err = pdf.DecodeExclusive(cur, ref, func(c pdf.Cursor, o pdf.Object, direct bool) (IfaceP, error) {
+			w.s.Yield("callback enter")
+			ran = true
+			res := &ValP{Serial: w.next()}
+			w.s.Yield("callback exit")
+			return res, nil
+		})
+		if err == nil {
+			if p, ok := v.(*ValP); ok {
+				serial = p.Serial
+			} else {
+				wrong = fmt.Sprintf("%T", v)
+			}
+		}
+	} else {
+		var v IfaceQ
+		v, err = pdf.DecodeExclusive(cur, ref, func(c pdf.Cursor, o pdf.Object, direct bool) (IfaceQ, error) {
+			w.s.Yield("callback enter")
+			ran = true
+			res := &ValQ{Serial: w.next()}
+			w.s.Yield("callback exit")
+			return res, nil
+		})
+		if err == nil {
+			if q, ok := v.(*ValQ); ok {
+				serial = q.Serial
+			} else {
+				wrong = fmt.Sprintf("%T", v)
+			}
+		}
+	}
+	tp := []string{"IfaceP", "IfaceQ"}[which]
+	w.note(tk, "exclusive(x%d, %s, %s) -> serial %d ran=%v err=%v", x, ref, tp, serial, ran, err)
+	w.e.Probe("exclusive decode with an interface result type")
+	if err != nil {
+		if !isInjected(err) {
+			w.fail("unexpected-error", map[string]string{"op": "exclusive-iface"}, "DecodeExclusive(%s) as %s: %v", ref, tp, err)
+		}
+		return
+	}
+	if wrong != "" {
+		w.fail("identity", map[string]string{"oracle": "result-type"}, "DecodeExclusive(%s) as %s returned a %s: the outcome of a decode for another result type", ref, tp, wrong)
+		return
+	}
+	w.checkIdentity(slotKey{x, ref, tp}, serial)
+}
+
 func (w *world) opPair(tk int, x int, ref pdf.Reference) {
 	a := &ValA{Serial: w.next(), Desc: "pair"}
 	b := &ValB{Serial: w.next(), Desc: "pair"}
@@ -544,6 +610,39 @@ func (w *world) opBadStream(tk int, ref pdf.Reference) {
 // opOtherFile writes and reads an independent file: it shares only
 // package-level state (the zlib pools) with the other tasks.
 func (w *world) opOtherFile(tk int, seed int) {
+	if seed%4 == 3 {
+		// an independent Reader on a file with objects nested too deeply: Get
+		// fails, and it has to fail with the same error every time - errors are
+		// values handed to one caller, not shared scratch space
+		img, refs := c18doc.DeepFile(seed)
+		h := simdisk.NewHandle(img)
+		h.Hook = func(int64, int) { w.s.Yield("ReadAt(other file)") }
+		r2, err := pdf.NewReader(h, int64(len(img)), nil)
+		if err != nil {
+			w.fail("interference", map[string]string{"op": "otherfile-deep"}, "independent hand-made file cannot be opened: %v", err)
+			return
+		}
+		for _, ref := range refs {
+			_, err1 := r2.Get(ref, true)
+			if err1 == nil {
+				w.note(tk, "otherfile(deep) accepted %s", ref)
+				continue
+			}
+			msg1 := err1.Error() // rendered now: the value must not change later
+			w.s.Yield("between failing Gets")
+			_, err2 := r2.Get(ref, true)
+			if err2 == nil {
+				continue
+			}
+			w.e.Probe("independent reader on a too deeply nested object")
+			if msg2 := err2.Error(); msg1 != msg2 || err1.Error() != msg1 {
+				w.fail("interference", map[string]string{"op": "otherfile-deep"}, "two Gets of the same object through the same independent Reader fail with different errors, or the first error changed afterwards: %d, %d and now %d bytes of message", len(msg1), len(msg2), len(err1.Error()))
+				return
+			}
+		}
+		w.note(tk, "otherfile(deep)")
+		return
+	}
 	if seed%2 == 1 {
 		// an independent Reader on a file whose stream has no /Length: the
 		// reader's recovery path (search for endstream, trim one end-of-line
@@ -762,6 +861,9 @@ func Run(e *core.Env) {
 			case 2:
 				o.kind, o.ref, o.tp = "exclusive", pickRef(), "B"
 				o.fail = t.Bool(l+".fail", 1, 3)
+				if t.Bool(l+".iface", 1, 3) {
+					o.kind, o.n = "excliface", t.Draw(l+".which", 2)
+				}
 			case 3:
 				o.kind, o.ref = "pair", pickRef()
 			case 4:
@@ -842,6 +944,8 @@ func Run(e *core.Env) {
 						w.opCMap(i, o.n)
 					case "fontrepair":
 						w.opFontRepair(i, o.n)
+					case "excliface":
+						w.opExclIface(i, o.x, o.ref, o.n)
 					}
 				}
 			})
